@@ -605,6 +605,18 @@ pub fn replay(args: &Args) {
             }
         };
         let mut rng = Rng::new(0x6A7B + k as u64);
+        // responses to a query that is pending right now (they need its transaction id and port)
+        let frames: Vec<Vec<u8>> = if stage == "dns-grammar" {
+            match dns_frames(&mut a, &mut now, med, v, mu) {
+                Ok(f) => f,
+                Err(m) => {
+                    t.ev(json!({"ev":"panic","k":k,"s":row,"msg":format!("dns query: {}", m)}));
+                    continue;
+                }
+            }
+        } else {
+            frames
+        };
         let mut panics: Vec<Value> = vec![];
         let mut npanic = 0u64;
         let mut n = 0u64;
@@ -636,6 +648,7 @@ pub fn replay(args: &Args) {
                     *g = json!({"k":k,"s":row,"frame":fi,"off":off,"hex":hex(&m)}).to_string();
                 }
                 beat.fetch_add(1, Ordering::Relaxed);
+                HEARTBEAT.fetch_add(1, Ordering::Relaxed);
                 match poll(&mut a, now, vec![m.clone()]) {
                     Ok(out) => {
                         maxtx = maxtx.max(out.len());
@@ -851,6 +864,7 @@ fn grammar_frames(med: Med, stage: &str, kind: &str, corpus: &[Cap], seed: u64, 
                 }
             }
         }
+        (_, "dns-grammar") => {} // built after the interface exists (needs the pending query's id and port)
         (_, "opt-grammar") => {
             out = option_frames(med, v, kind, corpus, &mut rng);
         }
@@ -1317,4 +1331,117 @@ fn option_frames(med: Med, v: u8, kind: &str, corpus: &[Cap], rng: &mut Rng) -> 
         }
     }
     out
+}
+
+/// Starts a DNS query on A and builds responses to it whose names exercise the compression-pointer walk: pointers to
+/// themselves, cycles, pointers into the header / beyond the end / into the middle of a label, truncated pointers,
+/// overlong and reserved labels, in the question, in an answer's owner name and in CNAME data.
+fn dns_frames(a: &mut Host, now: &mut i64, med: Med, v: u8, kind: &str) -> std::result::Result<Vec<Vec<u8>>, String> {
+    let Some(h) = a.dns else { return Ok(vec![]) };
+    {
+        let cx = a.iface.context();
+        let _ = a.sockets.get_mut::<dns::Socket>(h).start_query(cx, "host.test", DnsQueryType::A);
+    }
+    let io = ip_off(med);
+    let hdr = if v == 4 { 20 } else { 40 };
+    let mut q: Option<(u16, u16)> = None; // (transaction id, client port)
+    for _ in 0..6 {
+        *now += 10;
+        for f in poll(a, *now, vec![])? {
+            if f.len() >= io + hdr + 8 + 12 {
+                let u = &f[io + hdr..];
+                let is_udp = if v == 4 { f[io] >> 4 == 4 && f[io + 9] == 17 } else { f[io] >> 4 == 6 && f[io + 6] == 17 };
+                if is_udp && u16::from_be_bytes([u[2], u[3]]) == 53 {
+                    q = Some((u16::from_be_bytes([u[8], u[9]]), u16::from_be_bytes([u[0], u[1]])));
+                }
+            }
+        }
+        if q.is_some() {
+            break;
+        }
+    }
+    let Some((id, cport)) = q else { return Ok(vec![]) };
+    let names = |at: usize| -> Vec<Vec<u8>> {
+        let at = at as u8;
+        vec![
+            vec![0xC0, at],
+            vec![0xC0, at + 2, 0xC0, at],
+            vec![1, b'a', 0xC0, at],
+            vec![0xC0, 0x00],
+            vec![0xC0, 0xFF],
+            vec![0xC0, at + 1],
+            vec![4, b'h', b'o', b's', b't', 0xC0, at],
+            vec![0x3F, b'x', b'x', b'x', b'x', b'x', b'x', b'x', b'x', b'x', b'x'],
+            vec![0x40, 1],
+            vec![0x80, 1],
+            vec![0xC0],
+            vec![4, b'h', b'o', b's', b't', 4, b't', b'e', b's', b't', 0],
+        ]
+    };
+    let valid_q: Vec<u8> = vec![4, b'h', b'o', b's', b't', 4, b't', b'e', b's', b't', 0];
+    let mut msgs: Vec<Vec<u8>> = vec![];
+    let head = |an: u16| -> Vec<u8> {
+        let mut m = vec![];
+        m.extend_from_slice(&id.to_be_bytes());
+        m.extend_from_slice(&[0x81, 0x80, 0, 1]);
+        m.extend_from_slice(&an.to_be_bytes());
+        m.extend_from_slice(&[0, 0, 0, 0]);
+        m
+    };
+    match kind {
+        "question" => {
+            for qn in names(12) {
+                let mut m = head(0);
+                m.extend_from_slice(&qn);
+                m.extend_from_slice(&[0, 1, 0, 1]);
+                msgs.push(m);
+            }
+        }
+        "owner" => {
+            let ao = 12 + valid_q.len() + 4;
+            for on in names(ao) {
+                let mut m = head(1);
+                m.extend_from_slice(&valid_q);
+                m.extend_from_slice(&[0, 1, 0, 1]);
+                m.extend_from_slice(&on);
+                m.extend_from_slice(&[0, 1, 0, 1, 0, 0, 0, 60, 0, 4, 10, 0, 0, 9]);
+                msgs.push(m);
+            }
+        }
+        _ => {
+            // CNAME record for the queried name whose data is the hostile name, followed by an A record for it
+            let ao = 12 + valid_q.len() + 4;
+            let ro = ao + 2 + 10; // owner as a pointer to the question (2 octets), fixed part (10)
+            for tn in names(ro) {
+                let mut m = head(2);
+                m.extend_from_slice(&valid_q);
+                m.extend_from_slice(&[0, 1, 0, 1]);
+                m.extend_from_slice(&[0xC0, 12, 0, 5, 0, 1, 0, 0, 0, 60]);
+                m.extend_from_slice(&(tn.len() as u16).to_be_bytes());
+                m.extend_from_slice(&tn);
+                m.extend_from_slice(&[0xC0, ro as u8, 0, 1, 0, 1, 0, 0, 0, 60, 0, 4, 10, 0, 0, 9]);
+                msgs.push(m);
+            }
+        }
+    }
+    // every message also cut short at each length of its tail (the name walk must stop at the end of the packet)
+    let mut all: Vec<Vec<u8>> = vec![];
+    for m in &msgs {
+        all.push(m.clone());
+        for cut in 12..m.len() {
+            all.push(m[..cut].to_vec());
+        }
+    }
+    let mut out = vec![];
+    for m in all {
+        let u = udp_datagram(53, cport, &m);
+        let p = if v == 4 {
+            ipv4_packet([10, 0, 0, 2], [10, 0, 0, 1], 17, 77, 64, &u, true)
+        } else {
+            let (s6, d6) = if med == Med::Lowpan { (v6b(a.v6), v6b(a.v6)) } else { (v6b(Ipv6Address::new(0xfd00, 0, 0, 0, 0, 0, 0, 2)), v6b(Ipv6Address::new(0xfd00, 0, 0, 0, 0, 0, 0, 1))) };
+            ipv6_packet(s6, d6, 17, 64, &u, true)
+        };
+        out.push(if med == Med::Eth { eth_frame(mac(1), mac(2), if v == 4 { 0x0800 } else { 0x86dd }, &p) } else { p });
+    }
+    Ok(out)
 }
